@@ -47,9 +47,10 @@ CLASSES = [
     ('pct-d', 'zq%dj'), ('pct-s', 'zq%sj'), ('pct-v', 'zq%vj'), ('pct-pct', 'zq%%j'), ('pct-bang', 'zq%!j'),
     ('pct-idx', 'zq%[1]sj'), ('pct-end', 'zq100%'), ('pct-only', 'zq%'), ('braces', 'zq{{j}}'), ('dollar', 'zq$1j'),
     ('pct0a', 'zq%0Aj'), ('colons', 'zq::j'),
+    ('uesc', 'zq\\u003cj<&>\\u0026'), ('html', 'zq</script>&amp;j'), ('uesc-gt', 'zq\\u003ej'), ('lt', 'zq<j'),
 ]
 QUICK_CLASSES = {'plain', 'nl', 'cr', 'tab', 'esc', 'nul', 'cjk', 'quote', 'bs', 'brk2', 'pos', 'nlbrk',
-                 'pct', 'pct2', 'tmpl', 'bsn'}
+                 'pct', 'pct2', 'tmpl', 'bsn', 'uesc'}
 RAW_OK = {'plain', 'nonascii', 'cjk', 'emoji', 'quote', 'bs', 'brk', 'pos'}
 FNAMES = ['<stdin>', 'vp-c16/w.yml', 'vp c16/ワーク flow.yaml', '.github/workflows/a-b_c.yml']
 MODE_ORDER = ['oneline', 'default', 'range', 'rangecount', 'json', 'color', 'color-oneline']
@@ -607,7 +608,10 @@ def run(ck, tier):
 
 # strings a formatting layer could interpret: the instances of the message atom "pc" (Report.tla)
 PC_VARIANTS = ['%', '%%', '%s', '%d', '%v', '%!', '%[1]s', '100%', '{{', '}}', '{{.}}', '\\', '\\n', '$1', '%0A', '::',
-               '%!d(MISSING)', '%q%c%x']
+               '%!d(MISSING)', '%q%c%x',
+               # text an encoder / un-escaper could interpret: HTML-sensitive characters, and the JSON escapes of them
+               # as literal text
+               '<', '>', '&', '\\u003c', '\\u003e', '\\u0026', '\\\\', '\\"', '</script>', '&amp;', 'a\\u003cb<c']
 # the documented Markdown template (docs/usage.md) as parts; the snippet is empty for constructed errors
 MD_PARTS = [('lit', '### Error at line '), ('line', ''), ('lit', ', col '), ('col', ''), ('lit', ' of `'), ('file', ''),
             ('lit', '`\n\n'), ('msg', ''), ('lit', '\n\n```\n'), ('snip', ''), ('lit', '\n```\n\n')]
